@@ -922,7 +922,30 @@ func ruleFM2(c *Ctx) *rule {
 					carried = true
 				}
 			}
+			// between parsing the comment and attaching it, the decision looks at nothing but the next token's type and the
+			// comment's text: the printed form reproduces those two and nothing else (not blank lines, not columns)
+			layout := ""
+			after := reachFromInstr(fromComment)
+			for _, g := range fi.expandGuards(fi.necessaryGuards(site.Block())) {
+				if !after[g.e.from] && g.e.from != fromComment.Block() {
+					continue
+				}
+				if _, isPhi := g.cond.(*ssa.Phi); isPhi {
+					continue
+				}
+				if _, _, isTok := tokenTypeTest(g.cond); isTok {
+					continue
+				}
+				gs := c.newSlicer()
+				gs.depth = 0
+				gres := gs.run(g.cond)
+				if gres.hasField("token.Token.Line") || gres.hasField("token.Token.Pos") {
+					layout = condText(g.cond)
+				}
+			}
 			switch {
+			case layout != "":
+				r.bad(key, c.ipos(site), "whether the comment becomes the docstring also depends on where the tokens are in the file ("+layout+"): the formatter does not reproduce blank lines or columns, so formatting changes which comments are docstrings")
 			case carried:
 				r.bad(key, c.ipos(site), "the docstring is a comment remembered from an earlier iteration of the parse loop")
 			case !okGuard:
@@ -1239,6 +1262,36 @@ func ruleFM6(c *Ctx) *rule {
 				errChecked = true
 			}
 		}
+		// the argument is the file content itself: every origin is (a string conversion of) the bytes returned by ReadFile
+		var direct func(v ssa.Value, depth int) bool
+		direct = func(v ssa.Value, depth int) bool {
+			if depth > 4 {
+				return false
+			}
+			os := origins(v)
+			if len(os) == 0 {
+				return false
+			}
+			for _, o := range os {
+				switch x := o.(type) {
+				case *ssa.Extract:
+					call, isCall := x.Tuple.(*ssa.Call)
+					if !isCall || calleeName(call.Common()) != "os.ReadFile" || x.Index != 0 {
+						return false
+					}
+				case *ssa.Convert:
+					if !direct(x.X, depth+1) {
+						return false
+					}
+				default:
+					return false
+				}
+			}
+			return true
+		}
+		if !scanner && len(other) == 0 && !direct(site.Common().Args[0], 0) {
+			other = append(other, "cutting / choosing between alternatives")
+		}
 		switch {
 		case scanner && !errChecked:
 			r.bad(key, c.ipos(site), "the file is re-assembled line by line with a bufio.Scanner whose Err() is never consulted: a line longer than the scanner's buffer ends the scan silently and everything after it is missing from what is parsed (and from what --fmt writes back)")
@@ -1254,18 +1307,116 @@ func ruleFM6(c *Ctx) *rule {
 	return r
 }
 
+// ---- PR4: lexer and parser look at the same text ---------------------------------------------------------------------------------------
+
+func rulePR4(c *Ctx) *rule {
+	r := &rule{ID: "PR4", Engine: "E3", Floor: 2,
+		Statement: "the text the lexer scans and the text the parser quotes from are the same string: Lexer.input is lexer.New's parameter unchanged, and parser.New hands its own parameter both to lexer.New and to Parser.input",
+		Necessity: "token line numbers are counted by the lexer and looked up by the parser: if one of them works on a normalised copy (line endings, trimming) the cited line and the quoted line differ, or the lookup indexes past the end"}
+	paramOnly := func(v ssa.Value, f *ssa.Function) (*ssa.Parameter, bool) {
+		os := origins(v)
+		if len(os) != 1 {
+			return nil, false
+		}
+		p, ok := os[0].(*ssa.Parameter)
+		if !ok || p.Parent() != f {
+			return nil, false
+		}
+		return p, true
+	}
+	lexNew := c.fn("lexer", "New")
+	n := 0
+	for _, st := range c.fieldStores()["lexer.Lexer.input"] {
+		n++
+		key := fmt.Sprintf("%s Lexer.input#%d", fname(st.Parent()), n)
+		if _, ok := paramOnly(st.Val, st.Parent()); ok && st.Parent() == lexNew {
+			r.ok(key, c.ipos(st), "the parameter of lexer.New, unchanged")
+		} else {
+			r.bad(key, c.ipos(st), "the lexer scans a rewritten copy of the text it was given (or its input is replaced later): line numbers no longer refer to the caller's text")
+		}
+	}
+	parNew := c.fn("parser", "New")
+	var toLexer, toField *ssa.Parameter
+	for _, site := range callSites(parNew) {
+		if site.Common().StaticCallee() == lexNew && len(site.Common().Args) == 1 {
+			toLexer, _ = paramOnly(site.Common().Args[0], parNew)
+		}
+	}
+	for _, st := range c.fieldStores()["parser.Parser.input"] {
+		if st.Parent() == parNew {
+			toField, _ = paramOnly(st.Val, parNew)
+		}
+	}
+	key := "parser.New same text for lexer and parser"
+	if toLexer != nil && toLexer == toField {
+		r.ok(key, c.pos(parNew.Pos()), "one parameter feeds both")
+	} else {
+		r.bad(key, c.pos(parNew.Pos()), "the parser keeps a different string than the one it gives to the lexer")
+	}
+	return r
+}
+
+// ---- FM7: the parsed tree is not rearranged before it is printed --------------------------------------------------------------------
+
+func ruleFM7(c *Ctx) *rule {
+	r := &rule{ID: "FM7", Engine: "E3", Floor: 1,
+		Statement: "outside the parser and ast packages nothing stores into, sorts, reverses or appends over the node list of a syntax tree (a slice loaded from ast.Tree.Nodes, through any alias)",
+		Necessity: "the tree handed to file.New and the tree the formatter prints share one backing array: re-ordering the nodes while loading the spokfile moves statements away from their comments in what --fmt writes back"}
+	n := 0
+	for _, f := range c.ModFuncs {
+		pkg := shortPkg(fnPkgPath(f))
+		if pkg == "parser" || pkg == "ast" {
+			continue
+		}
+		for _, b := range f.Blocks {
+			for _, in := range b.Instrs {
+				v, ok := in.(ssa.Value)
+				if !ok {
+					continue
+				}
+				var nodes ssa.Value
+				switch x := in.(type) {
+				case *ssa.Field:
+					if fieldKey(x) == "ast.Tree.Nodes" {
+						nodes = x
+					}
+				case *ssa.UnOp:
+					if x.Op == token.MUL && fieldKey(x.X) == "ast.Tree.Nodes" {
+						nodes = x
+					}
+				}
+				_ = v
+				if nodes == nil {
+					continue
+				}
+				n++
+				key := fmt.Sprintf("%s tree nodes#%d unmodified", fname(f), n)
+				if why := c.sliceMutation(nodes, 3, map[ssa.Value]bool{}, "the node list of the tree"); why != "" {
+					r.bad(key, c.ipos(in), why)
+				} else {
+					r.ok(key, c.ipos(in), "read only")
+				}
+			}
+		}
+	}
+	if n == 0 {
+		r.ok("module tree nodes", "-", "the node list is not accessed outside the parser and the printer")
+	}
+	return r
+}
+
 func parseProperties() []*propertySpec {
 	return []*propertySpec{
 		{ID: "C08", Title: "Parsing any input terminates, deterministically, with a tree or located error",
 			Explanation: "Only the error-reporting and scan-termination clauses are structural and are what this check decides: PR1/PR2 (typed syntax tree, object identity of identifiers) prove that every ERROR arm of the parser reports the tested token's own Value and that every illegalToken quotes the line of the token it cites; LX1 proves on the lexer's state-function graph (recovered from the function constants each state can return) that a scan ends only through l.error (which sends an ERROR token) or directly after emit(EOF), and that run closes the channel after the state loop; LX2 proves every state path from the LBRACE state reaches the RBRACE state or an error before any EOF-emitting state; PR3 proves every token loop of the parser calls next() on every way round and is left on ERROR. Totality / absence of panics over all byte strings is NOT decided.",
 			NotCovered:  []string{"totality and absence of panics (index arithmetic in getLine, rune decoding) over all byte strings", "that each lexer state consumes input (cursor arithmetic)", "that cited line numbers are within 1..lines"},
 			Assumptions: []string{"a receive from the closed token channel yields the zero token, whose type is token.EOF"},
-			Rules:       []func(*Ctx) *rule{rulePR1, rulePR2, rulePR3, ruleLX1, ruleLX2}},
+			Rules:       []func(*Ctx) *rule{rulePR1, rulePR2, rulePR3, rulePR4, ruleLX1, ruleLX2, ruleFM6}},
 		{ID: "C15", Title: "Formatting keeps every comment and every task's docstring",
 			Explanation: "FM1 proves by a may-be-empty analysis over the SSA form of every String() method of the node types the parser appends (Comment, Assign, Task) that no return path prints the empty string, and that Tree.Write prints every node once, in order; FM2 proves by edge dominance that a parsed comment becomes a docstring only under the guard that the very next token is the task keyword, is never carried over from another iteration, and that Task.String prints it before the keyword; FM3 proves by path enumeration that every way round the parse loop appends exactly one node.",
 			NotCovered:  []string{"preservation of the comment text itself and of order (value-level)", "comments inside task bodies (the lexer rejects them)"},
 			Assumptions: []string{"docstring = comment immediately followed by the task keyword (parser definition)"},
-			Rules:       []func(*Ctx) *rule{ruleFM1, ruleFM2, ruleFM3, ruleFM4, ruleFM5, ruleFM6}},
+			Rules:       []func(*Ctx) *rule{ruleFM1, ruleFM2, ruleFM3, ruleFM4, ruleFM5, ruleFM6, ruleFM7}},
 	}
 }
 
